@@ -83,6 +83,10 @@ def run_verus_unit(prop, unit, workdir, out, tier, known):
             out.undecided.append('%s: unlisted assumption %s at assembled line %d' % (unit, item, ln))
         out.trusted.add('verus %s [%s]: %s' % (k, unit, name))
     res = verus_run.run_verus(path, meta, workdir, rlimit=PROPS[prop].get('rlimit'))
+    if res['status'] == 'undecided' and res.get('undecided') and not res.get('compile_errors'):
+        # resource limit hit (typically while searching for a proof of a FAILING obligation): one retry with 4x the budget
+        out.notes.append('%s: rlimit exceeded with default budget, retried with --rlimit 40' % unit)
+        res = verus_run.run_verus(path, meta, workdir, rlimit=40, timeout=1800)
     out.cmds.append(res['cmd'].replace(workdir, '<scratch>'))
     if res['status'] == 'undecided':
         out.undecided.append('%s: %s' % (unit, res['reason']))
